@@ -461,7 +461,13 @@ namespace Pistache
 
     std::ostream& operator<<(std::ostream& os, const Address& address)
     {
-        os << address.host() << ":" << address.port();
+        // an IPv6 literal needs its brackets, or the text cannot be parsed back
+        // ("::1:8080" is not an address)
+        if (address.family() == AF_INET6)
+            os << '[' << address.host() << ']';
+        else
+            os << address.host();
+        os << ":" << address.port();
         return os;
     }
 
